@@ -95,6 +95,7 @@ class State:
         self.events = []
         self.assumed = []     # names of assumed contracts used on this path
         self.trace = []       # branch decisions (line, taken) along this path
+        self.snaps = {}       # named ghost snapshots of earlier states (snap('name') / at('name', expr))
 
     def fork(self):
         s = State()
@@ -107,6 +108,7 @@ class State:
         s.events = list(self.events)
         s.assumed = list(self.assumed)
         s.trace = list(self.trace)
+        s.snaps = dict(self.snaps)
         return s
 
     def assume(self, f):
